@@ -5,6 +5,8 @@ import "reflect"
 // RecvDiscard is the scheduler-visible form of the statement `<-ch`: try without blocking; if
 // nothing is ready, park until some other thread has taken a step and retry. The receive itself
 // is the real channel operation (its happens-before meaning is preserved).
+//
+//go:norace
 func RecvDiscard(ch interface{}) {
 	v := reflect.ValueOf(ch)
 	if ex == nil {
@@ -23,6 +25,7 @@ func RecvDiscard(ch interface{}) {
 	}
 }
 
+//go:norace
 func isClosedAndEmpty(v reflect.Value) bool {
 	// A select with a default case tells a closed channel (receive succeeds with the zero value,
 	// recvOK=false) from an empty open one (default chosen).
@@ -34,6 +37,8 @@ func isClosedAndEmpty(v reflect.Value) bool {
 }
 
 // SendAny is the scheduler-visible form of the statement `ch <- val`.
+//
+//go:norace
 func SendAny(ch interface{}, val interface{}) {
 	c := reflect.ValueOf(ch)
 	x := reflect.ValueOf(val)
